@@ -809,6 +809,13 @@ impl<'a> World<'a> {
                         self.stats.crc_rejected += 1;
                     }
                 }
+                // damage beyond the CRC's guaranteed range (more than 4 flipped bits, truncation)
+                // slips through a 32-bit check once in 2^32 times: such a copy is withheld, so
+                // that no oracle ever blames uflow for what the checksum cannot see
+                if (c.trunc.is_some() || c.flips.len() > 4) && v != *bytes && uv::Frame::read(&v).is_some() {
+                    self.stats.crc_missed += 1;
+                    continue;
+                }
                 data = Rc::new(v);
             }
             let mut t = self.now_ns + c.delay_us * 1000;
